@@ -1,11 +1,16 @@
 (** C08 — Pseudo-TCP delivers exactly the bytes written, in order, then end-of-stream.
     Proved: the building blocks of the data path on the bit-exact model, and SENDER HONESTY over every sequence of socket
-    operations (C08_sender_honesty).  The receiver-side invariant and the two-socket prefix / end-of-stream theorem over all
-    schedules are NOT proved here (DESIGN.md; coq/Ptcp/ReceiverInvProofs.v holds the proved receive-side lemmas); that clause rests
-    on the correspondence (model = code) plus the implementation-side prefix/EOS oracle as counterexample search.
-    C08_receiver_needs_more_than_honest_data_refuted is a concrete run showing that honesty of the data segments alone is not enough. *)
+    operations (C08_sender_honesty), RECEIVER SOUNDNESS over every sequence of socket operations with honest segments
+    (C08_receiver_soundness) and their COMPOSITION for two sockets and a network that only delivers emitted packets
+    (C08_two_way_prefix; its remaining hypotheses -- connect segments whole, FIN at the end of the stream, no future timestamp echo on
+    connect segments, receive buffers of 7 bytes or more, no sequence wrap -- are explicit).  The end-of-stream clause is proved only in
+    part (C08_receiver_eos_partial: the FIN is never consumed before the data that precedes it); the rest of it rests on the
+    correspondence (model = code) plus the implementation-side prefix/EOS oracle as counterexample search.
+    C08_receiver_needs_more_than_honest_data_refuted and C08_two_way_prefix_needs_whole_connect_segments_refuted are concrete runs showing
+    that two of the explicit hypotheses cannot be dropped (both are findings about process(), see E2ESafetyProofs.v / E2EFindingProofs.v). *)
 From Coq Require Import ZArith List Bool.
 From Nice Require Import Base.Bytes Ptcp.PtcpModel Ptcp.PtcpProofs Ptcp.ReassemblyProofs Ptcp.SockOps Ptcp.SenderInvProofs Ptcp.E2ESafetyProofs.
+From Nice Require Import Ptcp.ReceiverInvProofs Ptcp.ReceiverSoundProofs Ptcp.E2EComposeProofs Ptcp.E2ECausalProofs Ptcp.E2EExample Ptcp.E2EFindingProofs Ptcp.ReceiverEosProofs.
 Import ListNotations.
 Local Open Scope Z_scope.
 
@@ -81,3 +86,83 @@ Theorem C08_receiver_needs_more_than_honest_data_refuted :
   forall k, [65; 66; 67; 68; 0; 0; 0; 65; 66; 67] <> firstn k peer_app.
 Proof. exact (conj honest_data_bad_timestamp_corrupts_the_stream corrupted_not_a_prefix). Qed.
 Print Assumptions C08_receiver_needs_more_than_honest_data_refuted.
+
+(** RECEIVER SOUNDNESS.  [S] is everything the peer queued (its connect message of [cl] bytes, then its application's bytes).  From any
+    socket that starts in LISTEN with nothing received and a receive buffer of at least [cl] bytes, after ANY sequence of operations in
+    which every segment fed to [notify_packet] is honest ([honest_op] / [honest]: a payload is the slice of [S] at the segment's sequence
+    number -- in any order, duplicated, overlapping, re-segmented, truncated; a connect segment carries the connect message whole and does
+    not echo a timestamp ahead of the clock; a FIN sits at the end of [S]), and as long as [S] is shorter than 2^31 - 2: the bytes [recv]
+    has handed to the application are a prefix of the peer's application bytes -- never altered, duplicated or reordered. *)
+Theorem C08_receiver_soundness : forall S cl s0 ops t,
+  rinit cl s0 -> len S + 2 < NW -> 0 <= cl <= len S -> cl <= 61440 ->
+  Forall (honest_op S cl) ops -> run (start s0) ops = Ok t ->
+  exists k, t_read t = firstn k (skipn (Z.to_nat cl) S).
+Proof. exact receiver_soundness. Qed.
+Print Assumptions C08_receiver_soundness.
+
+(** COMPOSITION.  Two sockets A and B; [sys_run] interleaves application calls on either side ([SA], [SB]) with deliveries ([SAB p now]:
+    the network hands [p] to B).  [net_ok]: the network only delivers packets the other socket emitted (any subset, order, multiplicity,
+    delay), application calls are well-typed, and no delivered connect segment echoes a timestamp ahead of the receiver's clock.
+    [sender_discipline] (NOT derived, see E2EComposeProofs.v): connect segments are emitted whole, FIN segments at the end of the stream.
+    Then the bytes read on each side are a prefix of the bytes written on the other side. *)
+Theorem C08_two_way_prefix : forall a0 b0 l tA tB,
+  init_ok a0 -> init_ok b0 -> rinit 7 a0 -> rinit 7 b0 ->
+  sys_run (start a0, start b0) l = Ok (tA, tB) -> Forall (net_ok tA tB) l ->
+  len (t_written tA) < NW - 10 -> len (t_written tB) < NW - 10 ->
+  sender_discipline tA -> sender_discipline tB ->
+  (exists k, t_read tB = firstn k (t_written tA)) /\ (exists k, t_read tA = firstn k (t_written tB)).
+Proof. exact two_way_prefix. Qed.
+Print Assumptions C08_two_way_prefix.
+
+(** the hypotheses of the composition (hence those of receiver soundness, which it instantiates) hold for a concrete run: A connects,
+    B answers, A writes "hello world" (its data segment is delivered twice), B writes 3 bytes back, both sides read everything *)
+Example C08_two_way_prefix_nonvacuous :
+  init_ok (sock_init 7) /\ rinit 7 (sock_init 7) /\
+  sys_run (start (sock_init 7), start (sock_init 7)) ex_l = Ok (ex_A, ex_B) /\ Forall (net_ok ex_A ex_B) ex_l /\
+  len (t_written ex_A) < NW - 10 /\ len (t_written ex_B) < NW - 10 /\ sender_discipline ex_A /\ sender_discipline ex_B /\
+  t_written ex_A = hello /\ t_read ex_B = hello /\ t_written ex_B = [1; 2; 3] /\ t_read ex_A = [1; 2; 3].
+Proof. exact two_way_prefix_nonvacuous. Qed.
+
+(** ... and with a CAUSAL network: [sys_valid] checks, step by step, that a delivered packet had ALREADY been emitted by the other socket
+    when it is delivered (events only accumulate: EventMonoProofs.v). *)
+Theorem C08_two_way_prefix_causal : forall a0 b0 l tA tB,
+  init_ok a0 -> init_ok b0 -> rinit 7 a0 -> rinit 7 b0 ->
+  sys_valid (start a0, start b0) l -> sys_run (start a0, start b0) l = Ok (tA, tB) ->
+  len (t_written tA) < NW - 10 -> len (t_written tB) < NW - 10 ->
+  sender_discipline tA -> sender_discipline tB ->
+  (exists k, t_read tB = firstn k (t_written tA)) /\ (exists k, t_read tA = firstn k (t_written tB)).
+Proof. exact two_way_prefix_causal. Qed.
+Print Assumptions C08_two_way_prefix_causal.
+
+(** a causal run with a graceful shutdown satisfying the hypotheses: the FIN segment (seq 18 = 7 + 11) overtakes the data and is delivered
+    again after it; B reads all 11 bytes, ends in CLOSE_WAIT, and its next [recv] returns 0 *)
+Example C08_two_way_prefix_causal_nonvacuous :
+  sys_run st0 fin_l = Ok (fin_A, fin_B) /\ sys_valid st0 fin_l /\ sender_discipline fin_A /\ sender_discipline fin_B /\
+  map (fun p => (pkt_seq p, pkt_flags p, len (pkt_payload p))) (pkts (t_ev fin_A)) = [(0, 2, 7); (7, 0, 11); (18, 1, 0)] /\
+  t_written fin_A = hello /\ t_read fin_B = hello /\ state (t_sock fin_B) = CLOSE_WAIT /\
+  (match recv 100 1010 (t_sock fin_B) (t_ev fin_B) with Ok (r, _, _) => Some r | Fault => None end) = Some (0, []).
+Proof. exact fin_run_nonvacuous. Qed.
+
+(** FINDING: the "connect segments whole" half of [sender_discipline] cannot be dropped.  Two honest sockets, a causal network that loses
+    one packet, well-typed application calls (B lowers its MTU to 119 while its connect message is unacknowledged): B wrote 65..74, A reads
+    65 66 67 0 65 66 67 68 69 70 (see E2EFindingProofs.v for the schedule). *)
+Theorem C08_two_way_prefix_needs_whole_connect_segments_refuted :
+  (sys_run st0 split_l = Ok (split_A, split_B) /\ sys_valid st0 split_l /\
+   t_written split_B = abc /\ t_read split_A = [65; 66; 67; 0; 65; 66; 67; 68; 69; 70] /\
+   map (fun p => (pkt_seq p, pkt_flags p, len (pkt_payload p))) (pkts (t_ev split_B)) =
+     [(0, 2, 7); (7, 0, 0); (7, 0, 10); (0, 2, 3); (3, 2, 3); (6, 2, 1); (7, 0, 3)]) /\
+  forall k, [65; 66; 67; 0; 65; 66; 67; 68; 69; 70] <> firstn k abc.
+Proof. exact (conj split_connect_message_corrupts_the_stream split_not_a_prefix). Qed.
+Print Assumptions C08_two_way_prefix_needs_whole_connect_segments_refuted.
+
+(** END OF STREAM (partial).  Under the hypotheses of receiver soundness: once the socket has consumed the peer's FIN (rcv_nxt stands one
+    past the end of the peer's stream; FIN-ACK mode), every byte the peer's application wrote has been handed to [recv] or sits, in order,
+    in the receive buffer -- the FIN is never consumed before the data that precedes it.  Missing for the full clause: the link between
+    what the application observes ([recv] returning 0 / the states reached through a received FIN) and "the FIN has been consumed". *)
+Theorem C08_receiver_eos_partial : forall S cl s0 ops t,
+  rinit cl s0 -> len S + 2 < NW -> 0 <= cl <= len S -> cl <= 61440 ->
+  Forall (honest_op S cl) ops -> run (start s0) ops = Ok t ->
+  support_fin_ack (t_sock t) = true -> rcv_nxt (t_sock t) = len S + 1 ->
+  t_read t ++ rb_data (rbuf (t_sock t)) = skipn (Z.to_nat cl) S.
+Proof. exact receiver_eos_partial. Qed.
+Print Assumptions C08_receiver_eos_partial.
